@@ -77,6 +77,7 @@ func Main(d *Design) {
 // NewDriver0 builds a driver with options.
 func NewDriver0(d *Design, sp *spec.Spec, id string, nilFormatter bool) *Driver {
 	dr := &Driver{Spec: sp, DesignID: id, svcs: map[string]*svcState{}, SetupErr: map[string]string{}, NilFormatter: nilFormatter}
+	installUnionHooks(sp, d) // OneOf attributes of the service types (union.go)
 	for _, sv := range d.Services {
 		st := &svcState{svc: sv, payloadT: mapT(), hasRes: map[string]bool{}, goName: map[string]string{}}
 		for _, ss := range sp.Services {
